@@ -197,12 +197,16 @@ const preludeCore = `(declare-sort Str 0)
 (declare-fun bit.andnot (Int Int) Int)
 (declare-fun bit.not (Int) Int)
 (declare-fun str.lt (Str Str) Bool)
+(declare-fun str.of ((Array Int Int) Int Int) Str)
 (declare-fun opq.mul (Int Int) Int)
 (declare-fun opq.div (Int Int) Int)
 (declare-fun opq.rem (Int Int) Int)
 `
 
 var preludeBlocks = []struct{ trigger, text string }{
+	{"str.of", `(assert (forall ((c (Array Int Int)) (o Int) (n Int)) (! (=> (<= 0 n) (= (slen (str.of c o n)) n)) :pattern ((str.of c o n)))))
+(assert (forall ((c (Array Int Int)) (o Int) (n Int) (i Int)) (! (=> (and (<= 0 i) (< i n)) (= (sat (str.of c o n) i) (select c (+ o i)))) :pattern ((sat (str.of c o n) i)))))
+`},
 	{"sconcat", `(assert (forall ((a Str) (b Str)) (! (= (slen (sconcat a b)) (+ (slen a) (slen b))) :pattern ((sconcat a b)))))
 (assert (forall ((a Str) (b Str) (i Int)) (! (=> (and (<= 0 i) (< i (slen a))) (= (sat (sconcat a b) i) (sat a i))) :pattern ((sat (sconcat a b) i)))))
 (assert (forall ((a Str) (b Str) (i Int)) (! (=> (and (<= (slen a) i) (< i (+ (slen a) (slen b)))) (= (sat (sconcat a b) i) (sat b (- i (slen a))))) :pattern ((sat (sconcat a b) i)))))
